@@ -3,7 +3,7 @@
    Part B: ball-tree k-nearest-neighbour query (no bound on points, dimension, leaf size, k). *)
 From Coq Require Import List ZArith QArith Qabs Bool Arith Lia Permutation Sorting.Sorted.
 From Gst Require Import lib.QAux C06.Model C06.Spec C06.Proofs C06.Proofs_select C06.Proofs_moving.
-From Gst Require Import C06.Knn C06.Proofs_knn C06.Proofs_heap C06.Proofs_query.
+From Gst Require Import C06.Knn C06.Proofs_knn C06.Proofs_heap C06.Proofs_query C06.Proofs_sort.
 Import ListNotations.
 
 (* ---------------------------------------------------------------------------------------------- *)
@@ -250,29 +250,19 @@ Theorem C06_knn_heap : forall h v i,
 Proof. intros h v i G L. split; [apply good_heap_top; exact G|apply good_heap_push; assumption]. Qed.
 Print Assumptions C06_knn_heap.
 
-(* (c) simultaneous_sort only permutes ... *)
-Theorem C06_knn_sort_perm : forall fuel l, Permutation (ssort fuel l) l.
-Proof. exact ssort_perm. Qed.
-Print Assumptions C06_knn_sort_perm.
+(* (c) simultaneous_sort (as repaired: "pivot_idx + 2 < size") is a sort: it permutes its input and leaves it
+   in increasing distance order, given fuel >= size (the model runs it with fuel = size) *)
+Theorem C06_knn_sort : forall fuel l, (length l <= fuel)%nat ->
+  Permutation (ssort fuel l) l /\ StronglySorted (fun a b => ext_le (fst a) (fst b) = true) (ssort fuel l).
+Proof. intros fuel l H. split; [apply ssort_perm|exact (ssort_sorted fuel l H)]. Qed.
+Print Assumptions C06_knn_sort.
 
-(* ... but it does NOT sort: "pivot_idx * 2 < size" (instead of pivot_idx + 2 < size) leaves the part right of
-   the pivot unsorted.  Seven points, Manhattan distance, k = 7: the last two distances come out as 6, 4.
-   Replayed on the implementation this is finding knn:result-not-sorted. *)
 Definition knn_ex_data : list pt := [[-1; -3]; [-1; 0]; [-2; -2]; [-3; 1]; [-2; -1]; [0; 2]; [-2; 0]].
-Theorem C06_knn_sorted_refuted :
-  exists data leaf k q res,
-    knn_query manhattan data (btree_init manhattan 2 data leaf) k q = Some res /\
-    exists i, (S i < length res)%nat /\ ext_lt (fst (nth (S i) res (None, 0%nat))) (fst (nth i res (None, 0%nat))) = true.
-Proof.
-  exists knn_ex_data, 3%Z, 7%nat, [-2; -2]. eexists. split; [vm_compute; reflexivity|].
-  exists 5%nat. split; vm_compute; [lia|reflexivity].
-Qed.
-Print Assumptions C06_knn_sorted_refuted.
 
-(* C06_knn without the ordering clause: for every metric, data set, leaf size and 1 <= k <= n the query returns k
-   distinct points with their true distances, and every point left out is at least as far as every
-   point returned (layers (a) pruning + accumulator, (b) heap, (c) permutation, (d) construction) *)
-Theorem C06_knn_partial : forall dist nfeat data (okp : pt -> Prop),
+(* C06_knn: for every metric, data set, leaf size and 1 <= k <= n the query returns k distinct points with their
+   true distances, every point left out is at least as far as every point returned, and the result is listed
+   by increasing distance (layers (a) pruning + accumulator, (b) heap, (c) sort, (d) construction) *)
+Theorem C06_knn : forall dist nfeat data (okp : pt -> Prop),
   (forall idxs, okp (centroid nfeat data idxs)) ->
   (forall i, (i < length data)%nat -> okp (getp data i)) ->
   (forall a b, okp a -> okp b -> 0 <= dist a b) ->
@@ -284,12 +274,14 @@ Theorem C06_knn_partial : forall dist nfeat data (okp : pt -> Prop),
   (forall e, In e res -> exists v, fst e = Some v /\ (snd e < length data)%nat /\ v == dist q (getp data (snd e))) /\
   NoDup (map snd res) /\
   (forall e j, In e res -> (j < length data)%nat -> ~ In j (map snd res) ->
-               ext_le (fst e) (Some (dist q (getp data j))) = true).
+               ext_le (fst e) (Some (dist q (getp data j))) = true) /\
+  StronglySorted (fun a b => ext_le (fst a) (fst b) = true) res.
 Proof.
-  intros dist nfeat data okp H1 H2 H3 H4 H5 leaf k q res.
-  exact (knn_query_correct dist nfeat data okp H1 H2 H3 H4 H5 leaf k q res).
+  intros dist nfeat data okp H1 H2 H3 H4 H5 leaf k q res Hq Hk E.
+  destruct (knn_query_correct dist nfeat data okp H1 H2 H3 H4 H5 leaf k q res Hq Hk E) as [A [B [C D]]].
+  repeat split; try assumption. exact (knn_query_sorted _ _ _ _ _ _ E).
 Qed.
-Print Assumptions C06_knn_partial.
+Print Assumptions C06_knn.
 
 (* the executable instance: Manhattan distance on coordinate lists of length nfeat *)
 Theorem C06_knn_manhattan : forall nfeat (data : list pt) leaf k q res,
@@ -299,8 +291,13 @@ Theorem C06_knn_manhattan : forall nfeat (data : list pt) leaf k q res,
   (forall e, In e res -> exists v, fst e = Some v /\ (snd e < length data)%nat /\ v == manhattan q (getp data (snd e))) /\
   NoDup (map snd res) /\
   (forall e j, In e res -> (j < length data)%nat -> ~ In j (map snd res) ->
-               ext_le (fst e) (Some (manhattan q (getp data j))) = true).
-Proof. exact knn_manhattan_correct. Qed.
+               ext_le (fst e) (Some (manhattan q (getp data j))) = true) /\
+  StronglySorted (fun a b => ext_le (fst a) (fst b) = true) res.
+Proof.
+  intros nfeat data leaf k q res H1 H2 H3 E.
+  destruct (knn_manhattan_correct nfeat data leaf k q res H1 H2 H3 E) as [A [B [C D]]].
+  repeat split; try assumption. exact (knn_query_sorted _ _ _ _ _ _ E).
+Qed.
 Print Assumptions C06_knn_manhattan.
 
 (* KNN::_query refuses k > n *)
@@ -314,3 +311,10 @@ Example C06_knn_nonvacuous :
               map snd (knn_spec manhattan knn_ex_data 3 [-2; -2]) = [2; 4; 0]%nat /\
               length (pts_of (btree_init manhattan 2 knn_ex_data 1)) = 7%nat.
 Proof. eexists. vm_compute. repeat split; reflexivity. Qed.
+
+(* the input on which the former test "pivot_idx * 2 < size" left the last two distances as 6, 4
+   (finding knn:result-not-sorted, fixed): seven points, leaf size 3, k = 7 *)
+Example C06_knn_sort_regression :
+  exists res, knn_query manhattan knn_ex_data (btree_init manhattan 2 knn_ex_data 3) 7 [-2; -2] = Some res /\
+              map fst res = [Some 0; Some 1; Some 2; Some 2; Some 3; Some 4; Some 6].
+Proof. eexists. vm_compute. split; reflexivity. Qed.
